@@ -2,5 +2,6 @@ pub mod tape;
 pub mod engine;
 pub mod dl;
 pub mod luasyn;
+pub mod gen;
 pub mod model;
 pub mod props;
